@@ -5,5 +5,7 @@ cd "$(dirname "$0")"
 export CARGO_NET_OFFLINE=true
 cp ../repo/Cargo.lock harness/Cargo.lock 2>/dev/null || cp /repo/Cargo.lock harness/Cargo.lock
 (cd harness && cargo build --offline --bins 2>&1 | grep -v '^warning' | tail -5)
+# modules with TLAPS proofs import TLAPS.tla from the proof system's library
+export JAVA_TOOL_OPTIONS="${JAVA_TOOL_OPTIONS:+$JAVA_TOOL_OPTIONS }-DTLA-Library=/opt/veriftools/tlapm/lib/tlapm/stdlib"
 (cd spec && for m in *.tla; do case "$m" in *_TTrace_*) continue;; esac; tla-sany "$m" > /dev/null 2>&1 || { echo "SANY failed: $m"; exit 1; }; done)
 echo setup done
